@@ -1,6 +1,7 @@
 package main
 
 import (
+	"regexp"
 	"encoding/json"
 	"flag"
 	"fmt"
@@ -33,6 +34,7 @@ type PropConfig struct {
 	Templates   []TemplateCheck `json:"templates,omitempty"` // K6: SQL template lemmas
 	Transitions []TransitionCheck `json:"transitions,omitempty"` // K6b: guarded SQL state-machine updates
 	ScanColumns []ScanColumnCheck `json:"scan_columns,omitempty"` // K6c: provenance of a scanned column
+	Wheres      []WhereCheck      `json:"wheres,omitempty"`       // K6d: WHERE-clause entailment (3VL)
 }
 
 type BoundedCheck struct {
@@ -295,6 +297,21 @@ func cmdCheck(args []string) int {
 		}
 		assumed["SQL UPDATE … WHERE changes a row only if the whole WHERE clause is TRUE for it; positional `?` parameters bind in textual order (database/sql + SQLite)"] = true
 	}
+	for _, wc := range cfg.Wheres {
+		frs, und := p.whereObligations(wc, anyFn)
+		for _, u := range und {
+			undecidedFuncs = append(undecidedFuncs, u)
+			fmt.Printf("UNDECIDED where=%s reason=%s\n", wc.Name, u)
+		}
+		funcsUnder = append(funcsUnder, fmt.Sprintf("WHERE clause of the constant SQL containing %q in %s (K6d %s)", wc.Contains, wc.Function, wc.Name))
+		for _, fr := range frs {
+			for _, o := range fr.Obligations {
+				nameCount[o.Name]++
+				all = append(all, &oblResult{O: o, FR: fr})
+			}
+		}
+		assumed["SQL selects/changes a row only if the whole WHERE clause evaluates to TRUE for it (three-valued logic; atoms of the WHERE clause treated as independent)"] = true
+	}
 	for _, ln := range cfg.Lemmas {
 		fr := p.verifyLemma(ln, anyFn)
 		if fr.Err != nil {
@@ -473,7 +490,7 @@ func cmdCheck(args []string) int {
 					fmt.Printf("UNDECIDED obligation=%s reason=counterexample-not-reproduced replay=%s\n", o.Name, path)
 				}
 			default: // no replay possible for this obligation shape
-				if expected[o.Name] || !haveBaseline {
+				if expected[o.Name] || !haveBaseline || siblingCallSite(o.Name, expected) {
 					r.Out = "violated"
 					violations++
 					exit = 1
@@ -714,4 +731,24 @@ func firstFunc(p *Program) *ssaFunction {
 		}
 	}
 	return nil
+}
+
+
+var callSiteRe = regexp.MustCompile(`^(.*\.call\..*)\.(\d+)\.(requires\..*)$`)
+
+// siblingCallSite: the obligation is a callee precondition at a call site that the baseline does not know, in a
+// function whose other call sites of the same callee discharge the same clause in the baseline — i.e. the change
+// added (or renumbered) a call to a contracted sink. A refutation there is a new unguarded sink call, not an
+// unstable obligation.
+func siblingCallSite(name string, expected map[string]bool) bool {
+	m := callSiteRe.FindStringSubmatch(name)
+	if m == nil {
+		return false
+	}
+	for e := range expected {
+		if em := callSiteRe.FindStringSubmatch(e); em != nil && em[1] == m[1] && em[3] == m[3] {
+			return true
+		}
+	}
+	return false
 }
